@@ -39,6 +39,10 @@ CLAIMS = {
  'C16': ('proof', '29 theorems: C16_blocks(+filtered), C16_block_shape, C16_header_fields, C16_aligned (rune offsets of the file and function columns equal on every call line), C16_colour_erasure (strip_csi (coloured) = uncoloured for any palette of CSI strings), '
          'C16_filter_match_split (filter-out and match-only outputs partition the unfiltered blocks), C16_complete; correspondence byte for byte with the real pp binary', 'section 6 C16',
          'Coq proofs over the token-level renderer model + byte-exact correspondence with the pp binary'),
+ 'C17': ('proof', '25 theorems: C17_text_safe / C17_text_chunks / C17_text_amp (escaped text never contains < > " \' NUL and every & starts one of the six entities), C17_attr_safe / C17_attr_no_danger / C17_href_safe (a normalised URL contains no quote, space, angle bracket, '
+         'backquote, backslash or control byte, for ALL byte strings), C17_url_scheme + C17_normalize_prefix + C17_href_scheme (every link starts with one of five fixed scheme+host prefixes whatever the dump contains), C17_class_safe, C17_src_url_path_confined, C17_attrs_total; '
+         'correspondence: every href/class of the content region equals the model value; oracle: tokenised structure equals that of a benign twin. Partial: the composition through html/template and the HTML tokenizer is modelled hole by hole, not as a whole-document theorem', 'section 6 C17',
+         'Coq proofs about the hand-built trusted values and the escapers + tokenised differential oracle (hostile snapshot vs benign twin)'),
 }
 
 def main():
